@@ -59,6 +59,83 @@ fn virtual_time_connections(rep: &Report) -> u64 {
     n
 }
 
+/// The server id is configuration: whatever text the operator wrote - in the YAML file or in the environment -
+/// is the first input of the hash, character for character, also when it happens to read like a number or a
+/// boolean. The application's own path is used: Config::read() -> DynAuthenticationAdapter::from_config -> the
+/// has-joined request captured by the mock session server.
+fn configured_server_ids(rep: &Report) -> u64 {
+    use passage_adapters::authentication::AuthenticationAdapter;
+    let mut n = 0;
+    let ids = ["", "lobby", "0123", "007", "1e5", "TRUE", "+7", "-0", "12.50", "0x1F"];
+    let dir = format!("{}/target/c11-config-{}", common::VERIF_ROOT, std::process::id());
+    let _ = std::fs::create_dir_all(&dir);
+    let rt = tokio::runtime::Builder::new_current_thread().enable_all().build().expect("rt");
+    rt.block_on(async {
+        let log = std::sync::Arc::new(std::sync::Mutex::new(vec![]));
+        let mock = crate::c12::mock_server(log.clone()).await;
+        unsafe { std::env::set_var("PASSAGE_VERIF_SESSION_URL", format!("http://{mock}")) };
+        let key: Vec<u8> = (0..162u32).map(|i| (i * 3 + 1) as u8).collect();
+        let secret = *b"configured-id-16";
+        for route in ["environment", "yaml"] {
+            for sid in ids {
+                n += 1;
+                for (k, _) in std::env::vars().filter(|(k, _)| k.starts_with("PASSAGE_") && k != "PASSAGE_VERIF_SESSION_URL") {
+                    unsafe { std::env::remove_var(k) };
+                }
+                unsafe {
+                    std::env::set_var("AUTH_SECRET_FILE", format!("{dir}/no-such-secret"));
+                    std::env::remove_var("ENV_PREFIX");
+                }
+                if route == "environment" {
+                    unsafe {
+                        std::env::set_var("CONFIG_FILE", format!("{dir}/no-such-config"));
+                        std::env::set_var("PASSAGE_ADAPTERS_AUTHENTICATION_MOJANG_SERVERID", sid);
+                    }
+                } else {
+                    let yaml = format!("adapters:\n  authentication:\n    mojang:\n      server_id: \"{sid}\"\n");
+                    let _ = std::fs::write(format!("{dir}/config.yaml"), yaml);
+                    unsafe { std::env::set_var("CONFIG_FILE", format!("{dir}/config.yaml")) };
+                }
+                let replay = json!({"configured_server_id": sid, "route": route});
+                let cfg = match passage::config::Config::read() {
+                    Ok(c) => c,
+                    Err(e) => {
+                        rep.violation(Violation { key: format!("configured-server-id:config-not-read:{route}"), text: format!("server id {sid:?} ({route}): {e}"), replay, weight: 40 });
+                        continue;
+                    }
+                };
+                let adapter = match passage::adapter::authentication::DynAuthenticationAdapter::from_config(cfg.adapters.authentication).await {
+                    Ok(a) => a,
+                    Err(e) => {
+                        rep.violation(Violation { key: "configured-server-id:adapter-not-built".into(), text: format!("{e}"), replay, weight: 40 });
+                        continue;
+                    }
+                };
+                log.lock().unwrap().clear();
+                let client: std::net::SocketAddr = "198.51.100.7:40123".parse().unwrap();
+                let uuid = uuid::Uuid::from_u128(11);
+                let _ = tokio::time::timeout(std::time::Duration::from_secs(5), adapter.authenticate(&client, ("h", 1), 769, ("Configured", &uuid), &secret, &key)).await;
+                let expected = enumk::c11::reference(sid, &secret, &key);
+                let seen: Vec<String> = log.lock().unwrap().clone();
+                let ok = seen.len() == 1 && seen[0].contains(&format!("serverId={expected} ")) || seen.len() == 1 && seen[0].contains(&format!("serverId={expected}&"));
+                if !ok {
+                    rep.violation(Violation {
+                        key: format!("configured-server-id:{route}"),
+                        text: format!("server id {sid:?} configured through the {route}: the has-joined request must carry serverId={expected}; requests seen: {seen:?}"),
+                        replay,
+                        weight: 40,
+                    });
+                }
+            }
+        }
+        for k in ["CONFIG_FILE", "AUTH_SECRET_FILE", "PASSAGE_ADAPTERS_AUTHENTICATION_MOJANG_SERVERID"] {
+            unsafe { std::env::remove_var(k) };
+        }
+    });
+    let _ = std::fs::remove_dir_all(&dir);
+    n
+}
+
 pub fn run(cli: Cli) -> ! {
     if let Some(case) = &cli.replay {
         if case.get("e2e").is_none() && case.get("virtual").is_none() {
@@ -76,6 +153,8 @@ pub fn run(cli: Cli) -> ! {
     let requests = AtomicU64::new(0);
     crate::c12::end_to_end(&rep, &requests);
     let v = virtual_time_connections(&rep);
+    let configured = configured_server_ids(&rep);
+    rep.set("configured_server_ids_through_config_read", json!(configured));
     let r = requests.load(Ordering::Relaxed);
     rep.require("has-joined requests of whole connections captured", r, 10);
     rep.set("whole_connections_over_tcp_requests_captured", json!(r));
